@@ -25,19 +25,29 @@ def run(ctx):
         raise vlib.Inconclusive('no final states in the WriteAPI dump')
     jobs = []
     per_case = 3 if tier == 'quick' else NVARIANTS
+    nbig = 0
     for c in cases:
         for nv in vlib.sample_list(ctx.rng, list(range(NVARIANTS)), per_case):
             jobs.append(dict(c, nv=nv))
+        # "big" concretisation: limit 256 KiB and one well-formed line of 65535 / 65536 / 65537 / 200000 bytes (with its newline),
+        # the first / middle / last of the good lines; expected response and stored points are the spec's (a long line is a good line)
+        if 'good' in c['req']['lines']:
+            bigs = list(range(1, 13))
+            for big in (vlib.sample_list(ctx.rng, bigs, 1) if tier == 'quick' else bigs):
+                jobs.append(dict(c, nv=ctx.rng.randrange(NVARIANTS), big=big))
+                nbig += 1
     binary = ctx.go_build('writeapi')
     res, lines = ctx.replay(binary, jobs, timeout=1200, procs=vlib.NCPU)
     ctx.absorb(res, lines)
     ctx.exhaustive = True
     ctx.extra_cov['requests'] = len(cases)
     ctx.extra_cov['concretisations_per_request'] = per_case
+    ctx.extra_cov['long_line_cases'] = nbig
     ctx.rule = ('every abstract request of the spec: line-class sequences over {good, bad, comment, blank} up to MaxLines, decoded size in '
                 '{limit-1, limit, limit+1, 2*limit}, identity or gzip with the compressed body below / above the limit, writer outcome ok / '
                 'partial(1 or all dropped) / error; each under seed-chosen concretisations (limit 256/1000/4096/65543, padding before or '
-                'after the lines, line shapes); non-trivial = a malformed line, a size at or above the limit, gzip, or a failing writer; '
+                'after the lines, line shapes) plus, for requests with a good line, concretisations with limit 256 KiB in which one good line is '
+                '64 KiB long or more (65535/65536/65537/200000 bytes, first/middle/last good line); non-trivial = a malformed line, a size at or above the limit, gzip, or a failing writer; '
                 'distinct = distinct abstract requests')
     ctx.assumptions += [
         'one request at a time through http.NewWriteHandler with mocked organization/bucket services, an authorizer holding write '
